@@ -373,6 +373,12 @@ class Built:
 
     def cond(self, c):
         k = c[0]
+        if k == 'cmp' and getattr(self, 'share_conds', None) is not None:
+            # case['share_conds']: structurally equal comparisons are ONE condition object (c = a.x == b.x, reused)
+            key = repr(c)
+            if key not in self.share_conds:
+                self.share_conds[key] = OPS[c[1]](self.term(c[2]), self.term(c[3]))
+            return self.share_conds[key]
         if k == 'cmp':
             return OPS[c[1]](self.term(c[2]), self.term(c[3]))
         if k == 'in':
@@ -550,6 +556,8 @@ def run_case(case, caching=True, evaluations=1, tree_out=None, ambient=None):
         b = Built(case)
         if case.get('share_terms'):
             b.share_terms = {}           # structurally equal attribute / index / call terms are ONE expression object
+        if case.get('share_conds'):
+            b.share_conds = {}           # structurally equal comparisons are ONE condition object
         snapshot = [{k: (list(v) if isinstance(v, list) else v) for k, v in vars(o).items()} for o in b.objs]
         b.query()
         outs = []
